@@ -95,28 +95,33 @@ def hs(s): return hx(s.encode())
 class Check(PropertyCheck):
     prop = "C54"
     design_ref = "§5 C54"
-    level_text = ("Lean theorems attached_only_if_spec_match, foreign_domain_not_stored, expired_removed (+ "
-                  "impl_domain_match_sound, impl_path_match_iff, jar_no_empty_dicts) about a model of the sticky-cookie jar "
-                  "(ckey, the transcribed http.cookiejar.domain_match, path_match, response/request) against RFC 6265 "
-                  "§5.1.3/§5.2.3/§5.1.4 stated in Lean, for ALL histories of responses and requests and every notion of "
-                  "'IP address' obeying two stated laws; model tied to the real addon by differential histories and an "
-                  "exhaustive host x domain / path x path comparison.")
-    level_note = ("trusted: Lean kernel; differential tie (random histories + exhaustive universe); Set-Cookie parsing, "
-                  "is_expired (clock) and the flow filter are parameters of the model (structured cookies, `expired` and `flt` "
-                  "flags) exercised through the real parser; ASCII hosts/domains only (str.lower = ASCII lower); the cookie's "
-                  "path is the one ckey stores (Path attribute or '/'): RFC 6265's default-path for cookies without a Path "
-                  "attribute is not part of the statement and not modelled; cookies whose Domain/Path attribute has no value "
-                  "are not generated.")
+    level_text = ("Lean theorems attached_only_if_spec_match, foreign_domain_not_stored, stored_only_from_matching_host, "
+                  "expired_removed(+_history), jar_no_empty_dicts, impl_domain_match_sound, impl_path_match_iff, and — new — "
+                  "jar_is_last_write (after ANY history the jar slot (key, name) holds exactly what the last accepted Set-Cookie "
+                  "for it says; expired = gone), jar_keys_and_names_unique, attached_is_latest_unexpired (only that last value is "
+                  "ever attached), attached_only_if_spec_match_raw (the same with the clock, cookies.get_expiration_ts/is_expired "
+                  "incl. Python int() and the case-insensitive last-value attribute lookup inside the model), "
+                  "max_age_nonpositive_is_expired, no_expiry_attribute_not_expired, valueless_domain_path_ignored; all against "
+                  "RFC 6265 §5.1.3/§5.2.3/§5.1.4 stated in Lean, for ALL histories, every clock and every notion of 'IP address' "
+                  "obeying two stated laws. Tie: differential histories (the model PREDICTS is_expired of every Set-Cookie and "
+                  "the Cookie header of every request; frozen clock), exhaustive host x domain / path x path pairs, int() strings.")
+    level_note = ("trusted: Lean kernel; differential tie; the Set-Cookie tokeniser (header text -> name, value, attribute pairs, "
+                  "with None for an attribute without '=value') and email.utils date parsing are parameters of the model, "
+                  "exercised through the real parser (the date verdict is an input of each raw cookie); the flow filter is the "
+                  "`flt` flag; ASCII hosts/domains/attribute values only (str.lower = ASCII lower, int() on ASCII); the cookie's "
+                  "path is the one ckey stores (Path attribute or '/'): RFC 6265's default-path is not part of the statement "
+                  "and not modelled; where Python int() and the RFC grammar disagree about a Max-Age value ('+0', '1_0') the "
+                  "oracle abstains on expiry (the model follows int()).")
     technique = "Lean 4 proof (history invariants, impl-vs-RFC matchers) + differential model-vs-code correspondence"
     rule = ("a case is a history (<=40 events) of responses (1-3 Set-Cookie headers: host-only / Domain with and without "
-            "leading dot, upper case, trailing dot, foreign, inner-substring hosts; Path; Max-Age/Expires fresh and expired; "
-            "duplicate attributes) and requests (related/unrelated hosts, ports, paths with and without query / percent-"
+            "leading dot, upper case, trailing dot, foreign, inner-substring hosts; Path; Max-Age/Expires fresh, expired, both, unparsable; "
+            "attributes without a value; duplicate attributes) and requests (related/unrelated hosts, ports, paths with and without query / percent-"
             "encoding / params, filter matching or not); on both, the Host header, HTTP/2 :authority, server-connection "
             "address, SNI and scheme are absent, equal to the destination or name a different related/unrelated host and "
             "port (the oracle and the model always take the destination request.host / request.port), or a single (host, domain) / (request path, cookie path) pair from the exhaustive universe; "
             "distinct = distinct case; non-trivial = some request got a cookie attached, or a pair case.")
-    budget = {"quick": 4000, "thorough": 120000}
-    time_budget = {"quick": 12, "thorough": 400}
+    budget = {"quick": 2500, "thorough": 50000}
+    time_budget = {"quick": 8, "thorough": 200}
     fingerprints = ["mitmproxy.addons.stickycookie:ckey", "mitmproxy.addons.stickycookie:domain_match",
                     "mitmproxy.addons.stickycookie:path_match", "mitmproxy.addons.stickycookie:StickyCookie.response",
                     "mitmproxy.addons.stickycookie:StickyCookie.request", "mitmproxy.net.http.cookies:is_expired",
